@@ -50,6 +50,18 @@ CHECKS["C18"] = dict(cat="exploration", tech="invariant (validity-predicate) che
 CHECKS["C14"] = dict(cat="exploration", tech="metamorphic testing on the SQL IR: analysis under a default schema vs the IR with every unqualified table explicitly qualified; both mechanisms (scoped override, environment variable in fresh interpreters)",
     text="For generated statements of every supported kind, C03-style scripts with DROP/RENAME and dialect-specific creation sites (vertica swap partitions, spark directory targets, legacy analyzer), the canonical dump under default schema S (lower/UPPER/Mixed/quoted, fresh or already used as qualifier) must equal the dump of the explicitly qualified IR; with no default, substituting the placeholder must give the same dump. Sampled.",
     ref="DESIGN.md section 4 C14")
+CHECKS["C04"] = dict(cat="exploration", tech="Hypothesis-generated multi-statement chains on the SQL IR; oracle = relational composition of the per-statement reference dataflows (with the session metadata earlier statements establish)",
+    text="Scripts of 2-4 generated statements whose later statements read earlier targets (linear, diamond, fan-in/out, re-written intermediates, through derived tables) are analysed with and without a metadata provider; the reported paths (subquery columns removed) must be exactly the simple root->leaf paths of the composed per-statement reference graph, including star expansion and unqualified-column attribution from session metadata. Sampled.",
+    ref="DESIGN.md section 4 C04")
+CHECKS["C08"] = dict(cat="exploration", tech="metamorphic testing on the SQL IR: capture-free renaming of all statement-local names, alias add/remove, AS toggling",
+    text="Generated statements are compared with their alpha-renamed versions (names from fresh, MixedCase, keyword-like, unused-table and - as a finding probe - used-table pools), with aliases added/removed and with AS toggled; tables and end-to-end column pairs must be identical. Sampled.",
+    ref="DESIGN.md section 4 C08")
+CHECKS["C13"] = dict(cat="exploration", tech="bounded-exhaustive knowledge assignments over shape templates + Hypothesis, against the metadata-aware reference semantics; differential with/without provider and between the two bundled providers",
+    text="Every shape template x every known/unknown assignment (with column-overlap patterns) over <=3 scope tables and the target is analysed with and without metadata: table lineage must not change, unknown-only statements must equal the no-provider result, column pairs must equal the metadata-aware reference model, and the dict-backed and SQLAlchemy (in-memory sqlite) providers must agree.",
+    ref="DESIGN.md section 4 C13")
+CHECKS["C16"] = dict(cat="exploration", tech="bounded-exhaustive spelling x position x dialect enumeration against a reference normalisation; Hypothesis on the normalisation helper and on equality/hash of model objects",
+    text="Every case pattern x quote style x 1-3 name parts x syntactic position (FROM, target, column, qualifier, alias, INSERT list, CTE name, write-then-read chain) under 7 dialects covering the three quote styles must print the reference-normalised entity and connect chains; the helper must normalise well-formed spellings as specified; equal entities must hash equally.",
+    ref="DESIGN.md section 4 C16")
 NA = {}
 def main():
     props = [json.loads(l)["id"] for l in open(os.path.join(HOME, "properties.jsonl"))]
